@@ -190,18 +190,24 @@ def read_catalog_raw(conn):
         fkrows = collections.defaultdict(list)
         for fid, seq, rt, frm, to, on_up, on_del, _m in conn.execute('PRAGMA foreign_key_list("%s")' % name).fetchall():
             fkrows[fid].append((seq, rt, frm, to, on_up, on_del))
-        fks = []
-        for fid, rows in fkrows.items():
-            rows.sort()
+        fks, decl = [], []
+        # PRAGMA foreign_key_list numbers the keys from the last declared one (id 0) to the first; the ON DELETE actions of one
+        # child table fire in that order, so the declaration order is kept next to the sorted comparison form
+        for fid in sorted(fkrows, reverse=True):
+            rows = sorted(fkrows[fid])
             fks.append((tuple(r[2] for r in rows), rows[0][1], tuple(r[3] for r in rows), ACT[rows[0][5]], ACT[rows[0][4]]))
+            decl.append([list(fks[-1][0]), fks[-1][1], list(fks[-1][2]), fks[-1][3], fks[-1][4]])
         tables[name] = {"cols": cols, "autoinc": bool(re.search(r"\bAUTOINCREMENT\b", sql or "")),
-                        "fks": [[list(f[0]), f[1], list(f[2]), f[3], f[4]] for f in sorted(fks)], "checks": extract_checks(sql)}
+                        "fks": [[list(f[0]), f[1], list(f[2]), f[3], f[4]] for f in sorted(fks)], "fks_decl": decl,
+                        "checks": extract_checks(sql)}
         for seq, iname, uniq, origin, partial in conn.execute('PRAGMA index_list("%s")' % name).fetchall():
             if origin != "c":
                 continue
             icols = [r[2] for r in conn.execute('PRAGMA index_info("%s")' % iname).fetchall()]
             indexes[iname] = [name, bool(uniq), icols]
-    return {"tables": tables, "indexes": indexes}
+    # the actions of different child tables fire from the most recently created table to the oldest: keep the creation order
+    order = [r[0] for r in conn.execute("SELECT name FROM sqlite_master WHERE type='table' AND name NOT LIKE 'sqlite_%' ORDER BY rowid").fetchall()]
+    return {"tables": tables, "indexes": indexes, "table_order": order}
 
 
 def normalize_catalog(raw):
@@ -222,10 +228,10 @@ G_ACT = {"no_action": "NoAction", "cascade": "Cascade", "set_null": "SetNull", "
 def catalog_gallina(raw):
     g, gl, go, gb = sqlparse.gstr, sqlparse.glist, sqlparse.gopt, sqlparse.gbool
     ts = []
-    for n in sorted(raw["tables"]):
+    for n in raw.get("table_order") or sorted(raw["tables"]):
         t = raw["tables"][n]
         cols = gl(t["cols"], lambda c: "(mkCCol %s %s %s %s %d)" % (g(c[0]), g(c[1]), gb(c[2]), go(c[3]), c[4]))
-        fks = gl(t["fks"], lambda f: "(mkSFk %s %s %s (Some %s) (Some %s))" % (gl(f[0]), g(f[1]), gl(f[2]), G_ACT[f[3]], G_ACT[f[4]]))
+        fks = gl(t.get("fks_decl", t["fks"]), lambda f: "(mkSFk %s %s %s (Some %s) (Some %s))" % (gl(f[0]), g(f[1]), gl(f[2]), G_ACT[f[3]], G_ACT[f[4]]))
         chk = gl(t["checks"], lambda c: "(%s, %s)" % (g(c[0]), g(c[1])))
         ts.append("(mkCTable %s %s %s %s %s)" % (g(n), cols, gb(t["autoinc"]), fks, chk))
     ix = ["(mkCIndex %s %s %s %s)" % (g(n), g(v[0]), gb(v[1]), gl(v[2])) for n, v in sorted(raw["indexes"].items())]
